@@ -35,6 +35,9 @@ func feasibleSLen(r *rng, tid int) int {
 
 var genMinPrograms = 1
 
+// genEarlyPMT lets PMT PIDs start before their PAT is complete (joining a stream mid-way): such units are optional for a receiver
+var genEarlyPMT = false
+
 func tidForPID(r *rng, pid int, role string) int {
 	switch role {
 	case "pat":
@@ -159,7 +162,7 @@ func genStreamScenario(r *rng, sid string, maxPIDs, maxUnits int) streamScenario
 	}
 	nes := r.rangeInt(1, 4)
 	for i := 0; i < nes && len(pids) < maxPIDs; i++ {
-		pids = append(pids, &pidState{pid: 0x100 + i, role: "es"})
+		pids = append(pids, &pidState{pid: []int{0x100, 0x147, 0x747, 0x101}[(i+int(sc.Seed%4))%4], role: "es"}) // some PIDs carry a 0x47 byte
 	}
 	uid := 0
 	for _, ps := range pids {
@@ -220,7 +223,7 @@ func genStreamScenario(r *rng, sid string, maxPIDs, maxUnits int) streamScenario
 			if !remaining(ps) {
 				continue
 			}
-			if ps.role == "pmt" && !patDone {
+			if ps.role == "pmt" && !patDone && !(genEarlyPMT && r.intn(3) == 0) {
 				continue
 			}
 			cands = append(cands, ps)
@@ -245,6 +248,9 @@ func genStreamScenario(r *rng, sid string, maxPIDs, maxUnits int) streamScenario
 		}
 		if n <= 176 && r.intn(8) == 0 {
 			p.PCR = true
+		}
+		if n <= 160 && r.intn(8) == 0 {
+			p.PD = r.rangeInt(1, 12)
 		}
 		p.Prio = r.intn(10) == 0
 		if !p.PUSI && gu.spec.T == "pes" && c.off >= gu.spec.HL && n >= 9 && r.intn(4) == 0 {
@@ -312,6 +318,7 @@ func genPairs(seed uint64, n, max int, emit func(interface{})) {
 				out = append(out, p)
 				d := p
 				d.F = "dup"
+				d.DP = p.PCR && r.boolean()
 				out = append(out, d)
 			case mode != 0 && x >= 6 && x < 10:
 				p.F = "drop"
